@@ -7,7 +7,8 @@ From Coq Require Import Reals ZArith List Bool Lia Lra Arith Permutation.
 From Interval Require Import Tactic.
 From PR Require Import Base.ZX Base.ListX Base.Slice Base.Num Base.RNum Model.Partition Model.Organise Model.ReduceMask
      Model.Sched
-     Proofs.C19_partition Proofs.C19_raa Proofs.C03_org Proofs.C03_pipe Proofs.C03_refuted Proofs.C03_sphere Proofs.C03_compose.
+     Proofs.C19_partition Proofs.C19_raa Proofs.C03_org Proofs.C03_pipe Proofs.C03_refuted Proofs.C03_sphere Proofs.C03_compose
+     Gen.GenC03 Proofs.C03_gen.
 From PR Require Model.KDTree.
 Import ListNotations.
 Local Close Scope Z_scope.
@@ -162,6 +163,21 @@ Theorem C03_snapshot_reduce_refuted :
         keep RO pymodR (legacy_win RO sin Wt r) s = false).
 Proof. exact snapshot_reduce_refuted. Qed.
 Print Assumptions C03_snapshot_reduce_refuted.
+
+(* The body of the boundary loop of data_reduce._get_valid_index is REGENERATED from /repo on every run (Gen/GenC03.v,
+   generic over the arithmetic): it is the step of the model's loop, and the model's winding sum is that body folded over
+   the four sides.  An edit of the loop body in /repo breaks this obligation, not only the bit-level correspondence. *)
+Theorem C03_boundary_step_generated : forall (T : Type) (OP : ops T) prev lon angle_sum side_sum,
+  gen_boundary_step OP prev lon angle_sum side_sum
+  = ((if ReduceMask.truthy OP prev then add OP angle_sum (wrap_delta OP lon prev) else angle_sum),
+     (if ReduceMask.truthy OP prev then add OP side_sum (wrap_delta OP lon prev) else side_sum), lon).
+Proof. intros T OP. exact (gen_boundary_step_char OP). Qed.
+Print Assumptions C03_boundary_step_generated.
+Theorem C03_winding_sum_generated : forall (T : Type) (OP : ops T) (s : sides),
+  fst (fst (angle_loop OP (ReduceMask.truthy OP) s))
+  = gen_side_sum OP (lo4 s) None (gen_side_sum OP (lo3 s) None (gen_side_sum OP (lo2 s) None (gen_side_sum OP (lo1 s) None (cz OP 0)))).
+Proof. intros T OP. exact (angle_sum_generated OP). Qed.
+Print Assumptions C03_winding_sum_generated.
 
 (* The bounds a sound window needs (pure spherical geometry, radians, sphere of radius Re, chord2 = squared chord length):
    what H_red would follow from for a window buffered by a := 2 asin(r / 2Re) in latitude and by asin(sin a / cos lat) in
